@@ -153,6 +153,10 @@ func sessionPools(r *Rand, npools int) ([][]sessInput, int) {
 	unopt := base
 	unopt.Optimize = false
 	pools = append(pools, []sessInput{{psSrc, sw1}, {psSrc, sw2}, {psSrc, lm}, {psSrc, unopt}})
+	// line markers with different input paths in one process
+	lmB, lmC := lm, lm
+	lmB.InputPath, lmC.InputPath = "maps/other dir/b.pory", `C:\data\c.pory`
+	pools = append(pools, []sessInput{{psSrc, lm}, {psSrc, lmB}, {constUse, lmC}, {constUse, lmB}})
 	fc := FileCfg{MaxTops: 4, Inline: true, AutoInline: true, MapScripts: true, Raw: true, Formats: true,
 		Ctl: GenCfg{MaxDepth: 3, MaxStmts: 3, MaxLeaves: 3, Auto: true, Switches: true, Gotos: true}}
 	nHand := len(pools)
